@@ -25,6 +25,8 @@ EXPLANATION = (
     'stores): attribute setters store with an overwriting form (operator[] assignment / insert_or_assign), never emplace/insert.')
 EXPLANATION += ' C08.R1 also checks that every scalar value hash is std::hash<T> of the value itself (not of a copy of its representation), that array hashes fold every element, and that equality of two sets compares the sorted maps element-wise. C08.R5 (exposure of finding D7b): while Set replaces the overflow value, no table created with a configured limit is filled through Set.'
 EXPLANATION += " C08.R4 finds the overflow predicate and the overflow-series insertion by what they do (a bool member relating the table size to the limit; a non-overwriting insertion under the overflow key), not by name. C08.R6's insertion gate is a decision table over 'processor is non-null' x 'isPresent returned true', evaluated through callbacks and file-local helpers. C08.R7 accepts emplace followed by an assignment to the found element on the not-inserted outcome."
+ROUND2_EXPLANATION = (' C08.R6 also: FilteringAttributesProcessor::isPresent is true exactly when the allow-list lookup finds the key (decision table). Shared C06.R3: reader fan-out of buildMetrics.')
+EXPLANATION += ROUND2_EXPLANATION
 NOT_DECIDED = 'hash collision behaviour; conservation of totals through overflow across cycles (arithmetic over histories). The filter clause is decided for synchronous instruments only: for observable instruments the view filter is not applied at all - recorded as finding D20 under C19 (C19.R3), whose check owns meter.cc.'
 
 NON_OVERWRITING = ('emplace', 'emplace_hint', 'insert', 'try_emplace')
